@@ -178,4 +178,39 @@ def sourceLoad {Code : Type} (compile : String → Compiled Code) (names : List 
     | .error _ => .syntaxError name
   else .notFound name
 
+
+-- ---------------------------------------------------------------------------------------------------------------
+-- 4. one loader shared by several environments: the namespace a load binds `environment` in
+-- ---------------------------------------------------------------------------------------------------------------
+
+/-- a module namespace as far as `_from_namespace` is concerned: the code executed into it and the value of its global
+    `environment` -/
+structure Ns where
+  code : String
+  env : Nat
+  deriving DecidableEq, Repr
+
+/-- `ModuleLoader.load` (loaders.py:659-685) + `_from_namespace`: `getattr(self.module, "<package>.<key>", None)` never
+    hits (the import system stores the sub-module under the short key) and the `sys.modules` entry is popped, so every load
+    executes the module into a NEW namespace; then `namespace["environment"] = environment`.  A template is a reference
+    (index) to its namespace.  Returns the heap of namespaces and one reference per load. -/
+def runLoads : List Ns → List (String × Nat) → List Ns × List Nat
+  | h, [] => (h, [])
+  | h, (c, e) :: rest =>
+    let r := runLoads (h ++ [⟨c, e⟩]) rest
+    (r.1, h.length :: r.2)
+
+/-- the variant in which the loader keeps the imported module per key and hands the SAME namespace to every load (what a
+    working `getattr(self.module, key)` cache would do): `_from_namespace` overwrites `environment` in the shared namespace -/
+def runLoadsCached : List Ns → List (String × Nat) → List Ns × List Nat
+  | h, [] => (h, [])
+  | h, (c, e) :: rest =>
+    match h.findIdx? (fun n => n.code == c) with
+    | some i =>
+      let r := runLoadsCached (h.mapIdx fun j n => if j = i then { n with env := e } else n) rest
+      (r.1, i :: r.2)
+    | none =>
+      let r := runLoadsCached (h ++ [⟨c, e⟩]) rest
+      (r.1, h.length :: r.2)
+
 end JinjaV.Precompiled
